@@ -7,35 +7,32 @@ namespace GnoVerif.C42
 
 /-! ### frames -/
 
-theorem padTo_length (n : Nat) (pad : Bytes) : (padTo n pad).length = n := by
-  simp [padTo]
-
-theorem mkFrame_length (ch pad : Bytes) (h : ch.length ≤ dataMaxSize) :
-    (mkFrame ch pad).length = totalFrameSize := by
-  simp only [mkFrame, List.length_append, leBytes_length, padTo_length, dataLenSize_eq, totalFrameSize_eq]
+theorem mkFrame_length (ch : Bytes) (h : ch.length ≤ dataMaxSize) :
+    (mkFrame ch).length = totalFrameSize := by
+  simp only [mkFrame, List.length_append, leBytes_length, List.length_replicate, dataLenSize_eq, totalFrameSize_eq]
   rw [dataMaxSize_eq] at h ⊢
   omega
 
-theorem mkFrame_take4 (ch pad : Bytes) : (mkFrame ch pad).take dataLenSize = leBytes dataLenSize ch.length := by
+theorem mkFrame_take4 (ch : Bytes) : (mkFrame ch).take dataLenSize = leBytes dataLenSize ch.length := by
   simp only [mkFrame, List.append_assoc]
   exact List.take_left' (leBytes_length _ _)
 
-theorem mkFrame_chunkLength (ch pad : Bytes) (h : ch.length ≤ dataMaxSize) :
-    leNat ((mkFrame ch pad).take dataLenSize) = ch.length := by
+theorem mkFrame_chunkLength (ch : Bytes) (h : ch.length ≤ dataMaxSize) :
+    leNat ((mkFrame ch).take dataLenSize) = ch.length := by
   rw [mkFrame_take4, leNat_leBytes_of_lt]
   rw [dataMaxSize_eq] at h
   rw [dataLenSize_eq]
   omega
 
-theorem mkFrame_chunk (ch pad : Bytes) :
-    ((mkFrame ch pad).drop dataLenSize).take ch.length = ch := by
+theorem mkFrame_chunk (ch : Bytes) :
+    ((mkFrame ch).drop dataLenSize).take ch.length = ch := by
   simp only [mkFrame, List.append_assoc]
   rw [List.drop_left' (leBytes_length _ _)]
   exact List.take_left
 
 theorem sealedAt_length (A : AEAD) (k : Bytes) (hO : A.Overhead k) (c : Nat) (f : Fr) (hf : f.WF) :
     (sealedAt A k c f).length = sealedFrameSize := by
-  rw [sealedAt, hO, mkFrame_length _ _ hf.2]
+  rw [sealedAt, hO, mkFrame_length _ hf.2]
   rfl
 
 /-! ### windows -/
@@ -84,10 +81,10 @@ theorem read_reject (A : AEAD) (sc : SC) (conn : Bytes) (size : Nat) (h : sc.rec
   unfold read
   simp [h, h0, Nat.not_lt.2 h1, ho]
 
-theorem read_accept (A : AEAD) (sc : SC) (conn : Bytes) (size c : Nat) (ch pad : Bytes)
+theorem read_accept (A : AEAD) (sc : SC) (conn : Bytes) (size c : Nat) (ch : Bytes)
     (h : sc.recvBuffer = []) (h1 : sealedFrameSize ≤ conn.length)
     (hn : sc.recvNonce = nonceOf c) (hc : c < maxUint64) (hch : ch.length ≤ dataMaxSize)
-    (ho : A.doOpen sc.recvKey sc.recvNonce (conn.take sealedFrameSize) = some (mkFrame ch pad)) :
+    (ho : A.doOpen sc.recvKey sc.recvNonce (conn.take sealedFrameSize) = some (mkFrame ch)) :
     read A sc conn size =
       ⟨{ sc with recvNonce := nonceOf (c + 1), recvBuffer := ch.drop (min size ch.length) },
        conn.drop sealedFrameSize, ch.take (min size ch.length), none⟩ := by
@@ -96,7 +93,7 @@ theorem read_accept (A : AEAD) (sc : SC) (conn : Bytes) (size c : Nat) (ch pad :
   have hinc : incrNonce sc.recvNonce = some (nonceOf (c + 1)) := by rw [hn]; exact incrNonce_nonceOf c hc
   unfold read
   simp only [h, ne_eq, not_true_eq_false, if_false, h0, Nat.not_lt.2 h1, ho, hinc,
-    mkFrame_chunkLength ch pad hch, Nat.not_lt.2 hch, mkFrame_chunk]
+    mkFrame_chunkLength ch hch, Nat.not_lt.2 hch, mkFrame_chunk]
   congr 2
   by_cases hlt : min size ch.length < ch.length
   · simp [hlt]
